@@ -12,7 +12,7 @@ CLAIMS = {
          "kind dispatch on both dispatch mechanisms, per resolver the source of the stored prong (literal first / guarded resumable / select() / sub-state "
          "report / random walk) for request and report flavours alike, descent into nested regions with the chosen prong, prong dispatch inside CS_, "
          "leftmost-on-ties comparisons, resumable memory on every leave, reset() order, idle guards, agreement of the two RegistryT specialisations and the "
-         "name-to-kind table of the whole request API. Decides that every ancestor loop of requestImmediate that marks a region can also re-target it (later requests of a batch override earlier ones). Does not decide the resulting configuration for an arbitrary batch from an arbitrary state.",
+         "name-to-kind table of the whole request API. Decides that every ancestor loop of requestImmediate that marks a region can also re-target it (later requests of a batch override earlier ones). Decides that reset() ends its re-activation with clearRequests() and that the anonymous head of a head-less region reports its own prong; flags the early stop of the ancestor walk (known finding). Does not decide the resulting configuration for an arbitrary batch from an arbitrary state.",
          "table/sibling agreement rules + interprocedural value-origin analysis + path rules over clang AST facts (static analysis)"),
  "C03": ("Decides enter-after-parent / exit-before-parent order, exit/enter pairing per region, that callbacks reach a sub-state only through the "
          "active (resp. requested) prong of its own region, prong dispatch inside CS_, who may invoke user callbacks / state wrappers / apex entry points, "
@@ -29,12 +29,12 @@ CLAIMS = {
          "success/failure routing decision trees of updatePlan and C_/O_::deepUpdatePlans, that head and sub-state statuses are or-ed into the right "
          "accumulators everywhere, that the status a state reports is the status of its own callbacks (the shared region-scope status is cleared before they "
          "run), mark clearing on exit / end of step, default propagation, TaskStatus ordering, and payload~void sibling agreement. "
-         "Decides that no library function passes, returns, holds or copy-constructs a state sub-object by value (callbacks run on the stored objects). Decides that the round loop is entered at most once per step on every path of its callers and that the change snapshot precedes the requests it is compared with; the bit-view read the orthogonal guard walk filters by is the single-bit normal form. Does not decide the step-level accumulation of statuses across nested regions as values.",
+         "Decides that no library function passes, returns, holds or copy-constructs a state sub-object by value (callbacks run on the stored objects). Decides that the round loop is entered at most once per step on every path of its callers and that the change snapshot precedes the requests it is compared with; the bit-view read the orthogonal guard walk filters by is the single-bit normal form. Decides that an orthogonal region forwards the guard walk to every sub-region its commit covers, that the walk ends in 'no objection' at a leaf, that every round's guards run on a freshly constructed GuardControl, and that a dropped round is rolled back like a vetoed one. Decides that a region hands its parent the head's status (not the sub-states'), that scope objects save / restore the control's own values and are opened before head callbacks run on a plan-capable control, that only append sets and only PlanDataT::clear drops the plan-owner bit, and that no copy of plan data is used after a call that may change it. Does not decide the step-level accumulation of statuses across nested regions as values.",
          "field-flow + decision-tree path rules + sibling skeleton agreement over clang AST facts (static analysis)"),
  "C07": ("Decides the capacity clause (no effect and `false` at capacity), who may write the link / bound / task tables, the exact write sets of linkTask "
          "(append at the tail with the old tail as predecessor), remove (both neighbours or the bound re-linked, both links of the freed slot reset, "
          "exactly the addressed slot freed last) and clearTasks (successor read before the slot is freed, bounds reset), agreement of the three plan "
-         "iterators, and reset-to-initial of clear(). Decides that emplace() branches only on the bookkeeping fields clear() resets (never on stale slot contents). Does not decide the global list-shape invariant over arbitrary interleavings.",
+         "iterators, and reset-to-initial of clear(). Decides that emplace() branches only on the bookkeeping fields clear() resets (never on stale slot contents). Decides that region scopes are opened before the head / sub-states receive a plan-capable control (exit included), so that control.plan() names the region whose callback runs. Does not decide the global list-shape invariant over arbitrary interleavings.",
          "per-path write-set rules + who-may-write + pattern-level sibling normal forms over clang AST facts (static analysis)"),
  "C14": ("Decides that the payload parameter of every ...With entry point (34 functions in 3 API layers plus PayloadPlanT::append) is the payload of the "
          "Transition / Task constructed, the constructor / flag / payload() discipline of TransitionT and TaskT, the plan-to-transition payload arm, "
@@ -51,7 +51,7 @@ CLAIMS = {
  "C09": ("Decides what is recorded and when (approved arm only; published on every exit of a step; cleared on deactivation/reset/load/replay), that the "
          "change predicate compares the whole pending configuration, who may write the pin table, that it is read under a bound and written with the request's position in the whole step's record (not in "
          "the round), and that replay reaches "
-         "no guard, records exactly the replayed list and commits through the ordinary routine. Does not decide that replay lands in the same configuration "
+         "no guard, records exactly the replayed list and commits through the ordinary routine. Decides that pins follow the fate of their round (snapshot at every approval, restored on veto / drop), that every resolver hands the request down to the sub-state it picks (pin coverage; four known findings), that a batch that fits is appended, and that the replay control carries the replayed transitions. Decides (shared instances) that PlanDataT::clear() resets every table a re-used task slot reads, and that replay records and exposes the replayed transitions with their payloads. Does not decide that replay lands in the same configuration "
          "from every state, nor the resumable part.",
          "path rules + who-may-write + call-graph reachability over clang AST facts (static analysis)"),
  "C10": ("Decides that no constructor chain can call a member of a base sub-object before that sub-object is constructed (initialiser self-references x "
@@ -93,7 +93,7 @@ CLAIMS = {
          "the materialised I_<STATE_ID, COMPO_INDEX, ORTHO_INDEX, ORTHO_UNIT> of every S_/C_/O_ base of every zoo machine and of generated wide "
          "machines (where unit offsets differ from indices) equal the same reference; and the registration data written by deepRegister/wideRegister "
          "agree with those indices by value, that every accessor overload addresses the registered slot by the same indices, and that the copies of the "
-         "counts held by ArgsT equal RF_'s in a type that can hold them (two shapes beyond 255 states / serial bits included). Shapes beyond the bound are covered only through the uniformity of the metafunctions.",
+         "counts held by ArgsT equal RF_'s in a type that can hold them (two shapes beyond 255 states / serial bits included). Decides that FSM::State::stateId<>() / regionId<>() resolve like the RF_ members and that every S_ wrapper opens an origin scope naming its own STATE_ID before the user's method runs. Shapes beyond the bound are covered only through the uniformity of the metafunctions.",
          "type-level static_assert witnesses decided by clang -fsyntax-only + class-hierarchy facts from the extractor (static analysis)"),
  "C18": ("Decides, on the uninstantiated patterns (so that members no machine uses are covered): that each of the 14 single-index accessors reduces, "
          "after substituting its locals, to the canonical one-unit / one-bit-mask form; that whole-array operations are a single loop over all units "
@@ -111,19 +111,19 @@ CLAIMS = {
  "C12": ("Decides tie-breaking operators (left half kept on ties), the utility composition formulas of nested composite / orthogonal regions as expression "
          "shape, same-kind delegation of reports on the way down, rank masking, the shape of the cumulative walk (skip iff cursor >= utility, one rng.next() "
          "per resolution, rng.next called nowhere else, the arrays walked are the arrays summed), that the walk cannot return none, and the anonymous-head "
-         "defaults for rank/utility. Decides that every index resolveRandom can return, including the overshoot fallback, passed the rank filter. Does not decide which interval a particular float r*sum falls into (rounding is a numeric question).",
+         "defaults for rank/utility. Decides that every index resolveRandom can return, including the overshoot fallback, passed the rank filter. Decides that the overshoot fallback only names candidates of positive utility that passed the rank filter, and that reset() resolves through the change path. Does not decide which interval a particular float r*sum falls into (rounding is a numeric question).",
          "expression-shape / sibling agreement rules + interprocedural return-origin analysis over clang AST facts (static analysis)"),
  "C13": ("Decides that both RegistryT specialisations answer the six queries with the same normalised comparison, that the comparisons are the ones the "
          "statement prescribes over the fields the commit / resume code writes (same index convention), the INVALID sentinel exclusion of the pending "
          "queries, that all control facades forward unchanged, that the resume path hands the remembered prong down unchanged, and that a region stores its "
-         "active prong before its first enter callback runs. Decides that every state-keyed query climbs to the deciding composite fork by a loop over forkParent (any number of orthogonal levels). Does not decide "
+         "active prong before its first enter callback runs. Decides that every state-keyed query climbs to the deciding composite fork by a loop over forkParent (any number of orthogonal levels). Decides that the state-typed overloads name the state by stateId<>(), and that an INVALID exclusion in the pending queries is only admissible together with a walk over further ancestors. Does not decide "
          "exactness of the pending queries for nested states whose ancestor region is the one switching.",
          "normal-form (atom set) sibling comparison + field tables over clang AST facts (static analysis)"),
  "C05": ("Decides the structural clauses of C05 for every instantiation of the reaction/update patterns in the witness zoo: phase order in "
          "R_::update/react/query, head vs sub-state order in C_/O_ and the 16 reaction wrappers, Initial-before-Remaining in OS_, consumption gating "
          "between any two consecutive deliveries (call-graph fixpoint mayDeliver/entryGated + path rule), active-prong origin, injected-base order, and that the "
          "configured reaction order reaches the machine through every Config option alias (type-level witness). "
-         "Does not decide the relative order of injected bases vs own handler for query/exitGuard (reported).",
+         "Judges the order of injected vs own handlers for query (down) and exitGuard (up) as well. Does not decide the relative order of injected bases vs own handler for query/exitGuard (reported).",
          "path/order rules + call-graph fixpoint over clang AST facts + static_assert witness decided by clang -fsyntax-only (static analysis)"),
 }
 NOTE = ("trusted: clang 14 front end, the hfx extractor (opaque constructs fail the run), the rule tables of DESIGN.md section 6; the quantifier over machine "
